@@ -443,5 +443,5 @@ def run(res, a):
     if trace.get("samples"):
         res.add_samples(trace["samples"])
     res.assumptions += ["64-bit Linux release configuration; arena ids are ints, 0 = none",
-                        "heaps created with tag 0 (thread init, mi_heap_new, mi_heap_new_in_arena): the theorems are `_partial` in the heap tag, see known finding impl:reclaim-by-tag-exclusive",
+                        "heap tags: the invariant is preserved by every step whose adopting heap is tag-safe (C15_bound_inv_preserved_adopter_partial), which holds for all histories of tag-0 heaps (thread init, mi_heap_new, mi_heap_new_in_arena); the remaining gap is exactly the known finding impl:reclaim-by-tag-exclusive (C15_tag_safe_is_necessary)",
                         "the arena claim hands out only zero bits of blocks_inuse inside field_count fields (property C14); C15 proves those bits are inside the region"]
